@@ -62,10 +62,30 @@ Theorem C01_stream_compressed : forall rc op server payload writes segs keys st 
   exists st', read_stream utf8_valid inflate window sw_dict wwrite_total fuel rc st wire = ([EvMsg op payload], OMore window st' false)
               /\ r_dps window st' = wwrite_total (r_dps window st) payload.
 Proof. exact (stream_fidelity_compressed utf8_valid deflate_raw inflate deflate_wf H_flate). Qed.
+
+(* Broadcasts mixed with direct sends on one connection, in ANY order.  A broadcast frame is built once by the first
+   connection cg of the compression class (same role and same negotiated compression as this connection c; cg's own
+   threshold, limit and UTF-8 setting decide how it is built), WITHOUT a dictionary, and the same bytes go out on c;
+   c's window takes the payload when the frame is compressed, and so does the peer's.  The peer inflates with its
+   current history as dictionary - harmless because a DEFLATE stream produced without a preset dictionary refers to
+   nothing before its start; that fact about the flate library is the extra oracle assumption H_flate_nodict. *)
+Hypothesis H_flate_nodict : forall d p lim, (Z.of_nat (length p) <= lim)%Z ->
+  inflate d (strip_tail (deflate_raw [] p) ++ flate_tail9) lim = Some p.
+
+Theorem C01_fidelity_mixed : forall c rc,
+  r_server rc = negb (w_server c) -> r_pmd rc = w_pmd c -> limit_ok rc ->
+  forall l ws hist st bs w fuel,
+  Forall (send_ok utf8_valid deflate_raw c rc) l -> win_inv ws hist ->
+  r_dps _ st = ws -> cf_init _ st = false ->
+  send_mixed utf8_valid deflate_raw c ws l = Some (bs, w) -> (length bs < fuel)%nat ->
+  exists st', read_stream utf8_valid inflate window sw_dict wwrite_total fuel rc st bs = (delivered_mixed l, OMore _ st' false)
+              /\ r_dps _ st' = w /\ cf_init _ st' = false.
+Proof. exact (fidelity_mixed utf8_valid deflate_raw inflate deflate_wf deflate_small H_flate H_flate_nodict). Qed.
 End C01.
 
 (* How the remaining clauses are covered:
    - any splitting of the byte stream into network reads: the reader model is a function of the byte string (harness varies chunking);
+   - broadcasts: C01_fidelity_mixed above;
    - streamed sends: C01_stream_plain / C01_stream_compressed above (built on C05_stream_frames, C05_flate_segments and
      the fragment theorem C03_fragmented_message);
    - asynchronous API: tasks of one goroutine start in submission order and never overlap (C15_fifo, C15_mutual_exclusion),
@@ -94,6 +114,19 @@ Example C01_stream_nonvacuous :
   end.
 Proof. vm_compute. split; reflexivity. Qed.
 
+(* a broadcast between two direct sends, server side *)
+Example C01_mixed_nonvacuous :
+  let c := {| w_server := true; w_pmd := false; w_threshold := 512; w_wlimit := 1000; w_utf8 := false |} in
+  let cg := {| w_server := true; w_pmd := false; w_threshold := 8; w_wlimit := 500; w_utf8 := true |} in
+  let rc := {| r_server := false; r_pmd := false; r_limit := 1000; r_utf8 := false |} in
+  let l := [SDirect (1, [[104; 105]], [0; 0; 0; 0]); SBroadcast cg 2 [7; 7; 7] [0; 0; 0; 0]; SDirect (9, [[1]], [0; 0; 0; 0])] in
+  match send_mixed (fun _ => true) (fun _ p => p) c sw_disabled l with
+  | Some (bs, _) => fst (recv_all (fun _ => true) (fun _ _ _ => None) rc sw_disabled bs) = [EvMsg 1 [104; 105]; EvMsg 2 [7; 7; 7]; EvPing [1]]
+  | None => False
+  end.
+Proof. vm_compute. reflexivity. Qed.
+
 Print Assumptions C01_fidelity.
+Print Assumptions C01_fidelity_mixed.
 Print Assumptions C01_stream_plain.
 Print Assumptions C01_stream_compressed.
